@@ -10,6 +10,7 @@ DRIVERS = {
     'config_tokenizer': {'src': 'replay/drivers/sqf_tokenizer.cpp', 'flags': ['-DCONFIG_TOK'], 'search_arg': '4'},
     'pbofile': {'src': 'replay/drivers/pbofile.cpp', 'flags': [], 'search_arg': '0'},
     'call_binary': {'vm': 'call_binary'},
+    'sqf_yylex': {'vm': 'sqf_yylex'},
 }
 
 _vm_build = None
